@@ -37,6 +37,50 @@ func checkC17(c *Ctx) {
 	c17Pairs(c)
 	c17Tags(c)
 	c17Envelope(c)
+	// R5: every codec of package backend is a function of its arguments: no package-level state is written by
+	// NewKeyEnvelope / Unwrap or any Marshal*/Unmarshal* method (a cache keyed by part of the arguments would make a
+	// later call return an earlier call's result)
+	c17Stateless(c)
+}
+
+func c17Stateless(c *Ctx) {
+	const rule = "R5.stateless"
+	sp := c.Prog.SSAPkg("backend")
+	if sp == nil {
+		c.Run.Unknown(rule, "backend", "", "package loaded", "missing")
+		return
+	}
+	var roots []*ssa.Function
+	if f := sp.Func("NewKeyEnvelope"); f != nil {
+		roots = append(roots, f)
+	}
+	for _, m := range sp.Members {
+		t, ok := m.(*ssa.Type)
+		if !ok {
+			continue
+		}
+		for _, T := range []types.Type{t.Type(), types.NewPointer(t.Type())} {
+			ms := c.Prog.SSA.MethodSets.MethodSet(T)
+			for i := 0; i < ms.Len(); i++ {
+				fn := c.Prog.SSA.MethodValue(ms.At(i))
+				if fn == nil || fn.Synthetic != "" || fn.Pkg != sp {
+					continue
+				}
+				switch fn.Name() {
+				case "MarshalJSON", "UnmarshalJSON", "MarshalText", "UnmarshalText", "Unwrap":
+					roots = append(roots, fn)
+				}
+			}
+		}
+	}
+	seen := map[*ssa.Function]bool{}
+	sort.Slice(roots, func(i, j int) bool { return roots[i].String() < roots[j].String() })
+	for _, fn := range roots {
+		if !seen[fn] {
+			seen[fn] = true
+			ruleStatelessGlobals(c, rule, fn)
+		}
+	}
 }
 
 // ---------------------------------------------------------------------------
